@@ -146,10 +146,10 @@ class C15(Prop):
                 return rng.choice(amb + ['nope'])
             pool = uniq if pool is None else pool
             return rng.choice(pool) if pool else 'nope'
-        kinds = ['select', 'select', 'withColumn', 'filter', 'drop', 'dropRef', 'rename', 'rename', 'join', 'join', 'crossJoin', 'union', 'agg', 'agg',
+        kinds = ['select', 'select', 'withColumn', 'filter', 'drop', 'dropRef', 'rename', 'rename', 'join', 'join', 'joinOn', 'crossJoin', 'union', 'agg', 'agg',
                  'pivot', 'pivot', 'pivot', 'sort', 'limit', 'distinct', 'sample', 'repartition']
         if tr.nrows > 25:
-            kinds = [k for k in kinds if k not in ('join', 'crossJoin', 'union')]
+            kinds = [k for k in kinds if k not in ('join', 'joinOn', 'crossJoin', 'union')]
         kind = rng.choice(kinds)
         et = tr.expr_types()
         if kind == 'select':
@@ -185,6 +185,33 @@ class C15(Prop):
             return {'op': 'withColumn', 'name': name, 'e': e}
         if kind == 'filter':
             return {'op': 'filter', 'e': G.gen_expr(rng, et, 'bool', rng.choice([1, 2]))}
+        if kind == 'joinOn':
+            # a join on a Column condition over the columns of both sides (all names distinct, so that every reference is
+            # unambiguous): all six join types
+            if len(set(names)) != len(names) or bad:
+                return self.gen_op(rng, tr)
+            other = self.gen_other(rng, tr, [])
+            if not other['names']:
+                other = dict(other, names=['w'], types=['int'], rows=[[G.sv(rng.choice([0, 1, 2, None]))] for _ in range(rng.randint(0, 3))])
+            fresh = []
+            for j, n in enumerate(other['names']):
+                n2 = '%s_r%d' % (n, j)
+                while n2 in names or n2 in fresh:
+                    n2 += 'x'
+                fresh.append(n2)
+            other = dict(other, names=fresh)
+            how = rng.choice(HOWS)
+            both_t = list(types) + list(other['types'])
+            if rng.random() < .5 and any(t == 'int' for t in types) and any(t == 'int' for t in other['types']):
+                li = rng.choice([i for i, t in enumerate(types) if t == 'int'])
+                ri = len(types) + rng.choice([i for i, t in enumerate(other['types']) if t == 'int'])
+                cond = {'op': rng.choice(['eq', 'eq', 'lt', 'ge']), 'a': {'op': 'col', 'i': li}, 'b': {'op': 'col', 'i': ri}}
+            else:
+                cond = G.gen_expr(rng, both_t, 'bool', rng.choice([1, 2]))
+            if how not in ('leftsemi', 'leftanti'):
+                tr.names, tr.types = list(names) + list(other['names']), both_t
+            tr.nrows = tr.nrows * max(1, len(other['rows']))
+            return {'op': 'joinOn', 'how': how, 'cond': cond, 'other': other}
         if kind == 'drop':
             cols = [rng.choice(uniq + ['zz']) for _ in range(rng.randint(1, 2))] if uniq else ['zz']
             keep = [i for i, n in enumerate(names) if not (n in cols and names.count(n) == 1)]
@@ -493,6 +520,8 @@ class C15(Prop):
             return df.join(other, on=list(op['on']), how=op['how'])
         if k == 'crossJoin':
             return df.crossJoin(self.make_df(op['other']))
+        if k == 'joinOn':
+            return df.join(self.make_df(op['other']), G.to_column(op['cond'], names + list(op['other']['names']), self._colcache), op['how'])
         if k == 'union':
             return df.union(self.make_df(op['other']))
         if k in ('agg', 'pivot'):
@@ -567,9 +596,25 @@ class C15(Prop):
                                 r, 'C15:model:fromRows', relation='model-only')
         elif src.get('via'):
             ctx.note('source:' + src['via'])
+        def max_col(a):
+            if isinstance(a, dict):
+                own = [a['i']] if a.get('op') == 'col' and isinstance(a.get('i'), int) else []
+                return max(own + [max_col(v) for v in a.values()] + [-1])
+            if isinstance(a, list):
+                return max([max_col(v) for v in a] + [-1])
+            return -1
         for step, op in enumerate(case['ops']):
             k = op['op']
             ctx.note('op:' + k)
+            width = len(prev['columns']) + (len(op['other']['names']) if k == 'joinOn' else 0)
+            if k == 'joinOn' and len(set(prev['columns']) | set(op['other']['names'])) != width:
+                ctx.note('joinOn-names-not-distinct')      # (only a shrunk case: the generator keeps all names distinct)
+                return None
+            if max_col({kk: v for kk, v in op.items() if kk != 'other'}) >= width:
+                # a positional reference beyond the frame (only a shrunk case can have one: the generator builds expressions
+                # over the columns that exist): not a program
+                ctx.note('reference-beyond-frame')
+                return None
             try:
                 ndf = self.apply_impl(df, op, df)
                 cur = self.observe(ndf)
@@ -582,7 +627,7 @@ class C15(Prop):
                 # in the model: the projection on the remaining positions (un-aliased column references keep their names)
                 mop = {'op': 'select', 'items': [{'k': 'expr', 'alias': None, 'e': {'op': 'col', 'i': j}}
                                                  for j in range(len(prev['columns'])) if j != op['pos']]}
-            if k in ('join', 'crossJoin', 'union'):
+            if k in ('join', 'joinOn', 'crossJoin', 'union'):
                 o = op['other']
                 mop['other'] = {'names': prev['columns'], 'rows': prev['rows']} if o == 'self' else {'names': o['names'], 'rows': o['rows']}
             if k == 'sample':
